@@ -533,6 +533,8 @@ def p3_stream_job(run, name, prop, streams, profile="dev", timeout=2400, heap="6
             hdr = {"cfg": st["cfg"], "unit": st["unit"], "mode": st["mode"], "eps": st["eps"], "float": st.get("float", "f64")}
             if "epsp" in st:
                 hdr["epsp"] = st["epsp"]
+            if st.get("pairs"):
+                hdr["pairs"] = True               # every input is [m, e]: the value (m / unit) * 2^e
             if any(abs(v) >= 2 ** 31 for v in st["eps"]):
                 raise ToolError("%s: eps %s does not fit TLC's 32-bit integers (use epsp)" % (name, st["eps"]))
             f.write(json.dumps(hdr) + "\n")
@@ -564,7 +566,7 @@ def p3_stream_job(run, name, prop, streams, profile="dev", timeout=2400, heap="6
         run.transitions += res["states"]
         run.traces += len(streams)
         run.evaluations += events
-        run.nontrivial += sum(v for k2, v in res["tally"].items() if (k2.startswith("def.") and k2 not in ("def.any",)) or k2.startswith("range.") or k2 in ("nopanic", "alive"))
+        run.nontrivial += sum(v for k2, v in res["tally"].items() if (k2.startswith("def.") and k2 not in ("def.any",)) or k2.startswith("range.") or k2.startswith("interval.") or k2 in ("nopanic", "alive"))
         run.exhaustive = False
         run.jobs.append({"name": name, "pipeline": "P3", "validator": "Trace_Stream.tla", "profile": profile, "streams": len(streams),
                          "inputs": sum(len(st["xs"]) for st in streams), "events_judged": events, "tally": {k2: v for k2, v in res["tally"].items() if not k2.startswith("print.")},
